@@ -46,6 +46,24 @@ def run(chk):
     chk.not_covered += ["function types (excluded by the property)", "two definitions with the same name in scope", "float constants inf/nan and negative integer constants as type arguments"]
 
 
+REPLAY_CONST_NAMES = r'''
+from guppylang_internals.tys.ty import TupleType, NumericType, ExistentialTypeVar
+from guppylang_internals.tys.const import ExistentialConstVar
+from guppylang_internals.tys.builtin import array_type, nat_type, int_type
+from guppylang_internals.tys.arg import ConstArg
+n1 = ExistentialConstVar.fresh("n", nat_type()); n2 = ExistentialConstVar.fresh("n", nat_type())
+t1 = ExistentialTypeVar.fresh("T", True, True); t2 = ExistentialTypeVar.fresh("T", True, True)
+def arr(el, n): return array_type(el, n)
+s_const = str(TupleType([arr(int_type(), n1), arr(int_type(), n2)]))
+s_type = str(TupleType([t1, t2]))
+import re
+names_c = re.findall(r"\\?n(?:'\\d+)?", s_const)
+names_t = re.findall(r"\\?T(?:'\\d+)?", s_type)
+print(json.dumps({"violates": len(set(names_c)) != 2 or len(set(names_t)) != 2, "observed": {"two const variables named n": s_const, "two type variables named T": s_type},
+                  "required": "distinct variables are printed with distinct names"}))
+'''
+
+
 def templates(chk):
     e = mk_engine(chk)
     for q in ("TypePrinter._visit_TupleType", "TypePrinter._visit_OpaqueType_StructType", "TypePrinter._visit_NoneType", "TypePrinter._visit_NumericType",
@@ -105,6 +123,23 @@ def templates(chk):
         want = ("name", "Name") if n == 0 else ("sub", "Name", [("name", f"X{i}") for i in range(n)])
         chk.prove_paths(f"TypePrinter._visit_OpaqueType_StructType[{n}]:prints-the-definition-name-applied-to-{n}-arguments-in-order", e.explore(t_opq),
                         lambda p, want=want: z3.BoolVal(p.kind == "return" and isinstance(p.value, str) and shape(p.value) == want), func=f"{PR}:TypePrinter._visit_OpaqueType_StructType")
+
+    # arguments are printed by THIS printer (its naming state — the names already issued — is what keeps two
+    # variables with the same display name apart), not by a fresh one via str()
+    for meth, field in (("_visit_ConstArg", "const"), ("_visit_TypeArg", "ty")):
+        for inside in (False, True):
+            def t_arg(it, meth=meth, field=field, inside=inside):
+                p = printer(it)
+                seen = []
+                inner = p.fields["_visit"]
+                p.fields["_visit"] = Builtin("_visit", lambda x, inside_row=False: (seen.append((x, inside_row)), inner.fn(x, inside_row))[1])
+                child = SObj(PH, {"ph": "CHILD"})
+                arg = SObj(ClassVal("ArgStub", builtin=True), {field: child})
+                f = it.lookup_global(e.module(PR), "TypePrinter").lookup(meth)[0]
+                return it.call(f, [p, arg, inside], {}), seen, child
+            chk.prove_paths(f"TypePrinter.{meth}[inside_row={inside}]:the-component-is-printed-by-this-printer(shared-naming-state)", e.explore(t_arg),
+                            lambda p, inside=inside: z3.BoolVal(p.kind == "return" and p.value[0] == "CHILD" and len(p.value[1]) == 1 and p.value[1][0][0] is p.value[2]),
+                            func=f"{PR}:TypePrinter.{meth}", replay=lambda m_: {"script": REPLAY_CONST_NAMES, "input": {}})
 
     def t_leaves(it):
         k = K(e, it)
